@@ -2,6 +2,7 @@
 import copy
 
 from .. import gen, refcodec as rc
+from ..preempt import call_preempted
 from ..world import World
 from . import common
 
@@ -12,8 +13,8 @@ RULE = ('one real ECU; a generated history of up to 12 add_timer / remove_timer 
         'periodic, duplicate registrations of one callback, callbacks removing themselves) issued from the application context or from inside a timer callback, '
         'with idle gaps from 0 to several periods and injected frames for the subscribers; each registration carries a unique cookie so every call is attributed; '
         'a timer model gives the allowed firing windows. non-trivial = at least one timer fired; distinct = distinct scenario JSON')
-FAULT_COUNTERS = {'operations issued from inside a timer callback': 'ops_in_timer_ctx', 'callbacks removing themselves': 'self_removals', 'expiries in the same pass': 'same_pass_expiries'}
-REQUIRED_PROBES = ['busy_callbacks', 'timer_calls', 'oneshots', 'periodics', 'duplicates', 'ops_in_timer_ctx', 'self_removals', 'removes', 'same_pass_expiries', 'subscriber_calls']
+FAULT_COUNTERS = {'application thread parked at a source line inside add_timer / remove_timer / subscribe / unsubscribe (pre-emption)': 'preempted_calls', 'operations issued from inside a timer callback': 'ops_in_timer_ctx', 'callbacks removing themselves': 'self_removals', 'expiries in the same pass': 'same_pass_expiries'}
+REQUIRED_PROBES = ['busy_callbacks', 'timer_calls', 'oneshots', 'periodics', 'duplicates', 'ops_in_timer_ctx', 'self_removals', 'removes', 'same_pass_expiries', 'subscriber_calls', 'preempted_calls', 'concurrent_add_remove']
 PERIODS_MS = [1, 2, 5, 10, 10, 20, 50, 100, 250, 500, 1000, 3000]
 GAPS_MS = [0, 0, 0, 1, 5, 10, 10, 20, 100, 600, 2500]
 
@@ -60,6 +61,11 @@ def generate(rng, tier, i):
             per = rng.choice([5, 10, 50])
             ops += [{'op': 'add', 'cb': cbx, 'period_ms': per, 'periodic': True, 'ctx': 'app', 'gap_ms': 0}, {'op': 'add', 'cb': cbx, 'period_ms': per, 'periodic': rng.random() < 0.5, 'ctx': 'app', 'gap_ms': 0},
                     {'op': 'remove', 'cb': cbx, 'ctx': 'app', 'gap_ms': rng.choice([0, 1, per])}]
+    # pre-emption of the application thread inside add_timer / remove_timer / subscribe / unsubscribe
+    if rng.random() < 0.25:
+        cand = [o for o in ops if o.get('ctx') == 'app' and o['op'] in ('add', 'remove', 'sub', 'unsub')]
+        for o in rng.sample(cand, min(len(cand), rng.randint(1, 3))):
+            o['pre'] = {'k': rng.randint(1, 14), 'hold_us': rng.choice([20, 500, 5000, 60000])}
     scn['ops'] = ops
     if small:
         scn['kernel']['lmax_ns'] = min(scn['kernel']['lmax_ns'], 50_000)
@@ -116,7 +122,7 @@ def execute(scn, keep_log=False, hook=None):
                     stats['self_removals'] += 1
                     s0 = stamp()
                     ecu.remove_timer(fn)
-                    removed.setdefault(cb, []).append(stamp() + (s0[1],))
+                    removed.setdefault(cb, []).append(stamp() + (s0[1], s0[0]))
                     return r['self_remove_returns']
                 return r['periodic']
             timer_fns[cb] = fn
@@ -130,6 +136,14 @@ def execute(scn, keep_log=False, hook=None):
             sub_fns[cb] = fn
         return sub_fns[cb]
 
+    def lib(o, fn):
+        """Make the library call fn(); an application-context operation with 'pre' runs in a simulated application thread that is
+        parked at its k-th library source line for a while (the job thread and reception run on meanwhile)."""
+        pre = o.get('pre') if sim.current is None else None
+        _r, tr = call_preempted(sim, fn, pre)
+        if tr is not None and tr.fired:
+            stats['preempted_calls'] += 1
+
     def perform(o):
         if o['op'] == 'add':
             r = {'cb': o['cb'], 't_reg': sim.now, 'tick_reg': stamp()[1], 'delta': o['period_ms'] * 1_000_000, 'periodic': o['periodic'], 'calls': [],
@@ -138,22 +152,24 @@ def execute(scn, keep_log=False, hook=None):
                 stats['duplicates'] += 1
             regs.append(r)
             stats['periodics' if o['periodic'] else 'oneshots'] += 1
-            ecu.add_timer(o['period_ms'] / 1000.0, timer_fn(o['cb']), cookie=len(regs) - 1)
+            lib(o, lambda: ecu.add_timer(o['period_ms'] / 1000.0, timer_fn(o['cb']), cookie=len(regs) - 1))
+            r['t_ret'], r['tick_ret'] = stamp()
         elif o['op'] == 'remove':
             stats['removes'] += 1
             s0 = stamp()
-            ecu.remove_timer(timer_fn(o['cb']))
+            lib(o, lambda: ecu.remove_timer(timer_fn(o['cb'])))
             # (time returned, tick returned, tick called): a registration another thread makes while the call is in progress
             # (remove_timer wakes the job thread before it returns) is concurrent with the removal and not covered by it
-            removed.setdefault(o['cb'], []).append(stamp() + (s0[1],))
+            # entry: (time returned, tick returned, tick called, time called)
+            removed.setdefault(o['cb'], []).append(stamp() + (s0[1], s0[0]))
         elif o['op'] == 'sub':
             flt = o['filter']
             if flt == 'pred':
                 flt = (lambda d: d in (0x20, 0x21))
-            ecu.subscribe(sub_fn(o['cb']), flt)
+            lib(o, lambda: ecu.subscribe(sub_fn(o['cb']), flt))
             subs.setdefault(o['cb'], []).append(stamp())
         elif o['op'] == 'unsub':
-            ecu.unsubscribe(sub_fn(o['cb']))
+            lib(o, lambda: ecu.unsubscribe(sub_fn(o['cb'])))
             unsub.setdefault(o['cb'], []).append(stamp())
         elif o['op'] == 'frame':
             injected.append(sim.now)
@@ -205,11 +221,24 @@ def execute(scn, keep_log=False, hook=None):
     def busy_between(a, b):
         return any(b0 < b and b1 > a for (b0, b1) in busy)
 
+    base_slack = slack
     for k, r in enumerate(regs):
         cb, t_reg, delta = r['cb'], r['t_reg'], r['delta']
-        ends = [x for x in removed.get(cb, []) if x[2] > r['tick_reg']]
+        # a registration call that was held inside the library: the deadline was computed somewhere between call and return
+        t_ret = r.get('t_ret', t_reg)
+        slack = base_slack + (t_ret - t_reg)
+        # a removal covers the registrations whose add_timer call had returned before the remove_timer call started (calls that overlap
+        # are concurrent); the callback must not run after the call has returned, and may stop running as soon as it has started
+        ends = [x for x in removed.get(cb, []) if x[2] > r.get('tick_ret', r['tick_reg'])]
         stop = min(ends, key=lambda x: x[1]) if ends else None
-        t_stop = stop[0] if stop else None
+        t_stop = stop[3] if stop else None
+        t_stop_ret = stop[0] if stop else None
+        # a removal whose call overlapped the registering call may or may not have taken this registration with it
+        overl = [x for x in removed.get(cb, []) if not (x[2] > r.get('tick_ret', r['tick_reg']) or x[1] < r['tick_reg'])]
+        if overl:
+            stats['concurrent_add_remove'] += 1
+            t_first = min(x[3] for x in overl)
+            t_stop = t_first if t_stop is None else min(t_stop, t_first)
         call_stamps = r['calls']
         calls = [c[0] for c in call_stamps]
         for (c, ctick) in call_stamps:
@@ -220,7 +249,7 @@ def execute(scn, keep_log=False, hook=None):
             if stop is not None and ctick > stop[1]:
                 viol.append({'clause': 'called-after-remove', 'rank': 2, 'feat': {'what': 'timer'},
                              'msg': 'timer callback %d called %.3f ms after remove_timer returned (registered %d times)' % (
-                                 cb, (c - t_stop) / 1e6, sum(1 for x in regs if x['cb'] == cb))})
+                                 cb, (c - t_stop_ret) / 1e6, sum(1 for x in regs if x['cb'] == cb))})
                 break
         if dead:
             continue
@@ -228,11 +257,11 @@ def execute(scn, keep_log=False, hook=None):
         if not r['periodic'] or (r.get('self_remove_after') is not None and not r['self_remove_returns']):
             if r['periodic'] is False and len(calls) > 1 and r.get('self_remove_after') is None:
                 viol.append({'clause': 'oneshot-repeated', 'rank': 3, 'msg': 'one-shot timer fired %d times' % len(calls)})
-            if not calls and horizon > allowed(t_reg + delta):
+            if not calls and horizon > allowed(t_ret + delta):
                 viol.append({'clause': 'timer-missed', 'rank': 3, 'feat': {'kind': 'oneshot'},
                              'msg': 'one-shot timer (%d ms) registered at +%.3f ms had not fired %.3f ms later (allowed %d ms + %.3f ms)' % (
                                  delta // 1_000_000, (t_reg - t0) / 1e6, (horizon - t_reg) / 1e6, delta // 1_000_000, slack / 1e6)})
-            elif calls and calls[0] > allowed(t_reg + delta):
+            elif calls and calls[0] > allowed(t_ret + delta):
                 viol.append({'clause': 'timer-late', 'rank': 4, 'feat': {'kind': 'oneshot'},
                              'msg': 'one-shot timer (%d ms) fired %.3f ms after registration (allowed %d ms + %.3f ms)' % (
                                  delta // 1_000_000, (calls[0] - t_reg) / 1e6, delta // 1_000_000, slack / 1e6)})
